@@ -62,4 +62,21 @@ def statesValid (n n' : Node) : Bool :=
     n.hosts.all (fun h => !(h.id == h'.id) || h.recs.all (fun r => !(r.localIndex == r'.localIndex) ||
       r.state == r'.state || !(r'.state == nebula_PeerRequested)))))
 
+
+-- ---- "relay indexes disappear with the tunnel that owns them"
+
+/-- every key of `hm.Relays` is owned by a hostinfo that is in the hostmap now. -/
+def relayOwnersLive (n : Node) : Bool := n.relays.all (fun p => n.hosts.any (fun h => h.id == p.2))
+
+/-- every key of `hm.Relays` is listed in its (live) owner's relay state. -/
+def relayIndexInOwnerState (n : Node) : Bool :=
+  n.relays.all (fun p => n.hosts.all (fun h => !(h.id == p.2) || h.recs.any (fun r => r.localIndex == p.1)))
+
+/-- the other direction: every record of a live hostinfo is registered in `hm.Relays` under that hostinfo. -/
+def stateIndexesRegistered (n : Node) : Bool :=
+  n.hosts.all (fun h => h.recs.all (fun r => n.relays.any (fun p => p.1 == r.localIndex && p.2 == h.id)))
+
+def relaysAndStateAgree (n : Node) : Bool :=
+  relayOwnersLive n && relayIndexInOwnerState n && stateIndexesRegistered n
+
 end Nebula.Spec.Relay
